@@ -52,11 +52,26 @@ func ctxScenario(p ctxParams) func() {
 		if p.state == "down" {
 			o.Down = []bool{true, false}[:n]
 		}
+		if p.state == "abandoned-stream" {
+			o.Window = 4 // the servers' replies arrive faster than the abandoned call consumes them
+		}
 		w := world.New(o)
 		if w.Cfg == nil {
 			return
 		}
+		abandoned := 0
 		w.Handle = func(h *world.HCtx) world.Reply {
+			if h.Tok == abandoned {
+				// the earlier stream call of state "abandoned-stream": every node streams three replies
+				h.Release()
+				w.Wait("stream")
+				for i := 0; i < 3; i++ {
+					if h.Send(i, 0) != nil {
+						break
+					}
+				}
+				return world.Reply{}
+			}
 			if h.Node == 1 {
 				world.Block() // node 1 never answers and never releases
 			}
@@ -79,6 +94,18 @@ func ctxScenario(p ctxParams) func() {
 			b.Ctx = context.Background()
 			w.Invoke(b)
 			mc.Quiesce()
+		}
+		if p.state == "abandoned-stream" {
+			// an earlier server-stream call on the same nodes is abandoned (its context ends, an adversary
+			// thread) while the servers are streaming: its leftovers must not hold up the call under test
+			x := w.NewCall("CorrectableStream")
+			x.Verdict = func(inv *world.QFInv) { inv.Level = len(x.QF) + 1; inv.Quorum = false }
+			abandoned = x.Tok
+			w.Start(x)
+			mc.Quiesce()
+			w.Open("stream")
+			mc.GoLow("cancel-stream", func() { x.Cancel(context.Canceled) })
+			mc.Quiesce() // the call under test is issued once the abandoned call has been dealt with
 		}
 		c := w.NewCall(p.kind)
 		c.NoSendWaiting = p.nsw
@@ -164,9 +191,12 @@ func ctxInstances(tier string) []Instance {
 		kinds = append(kinds, k{"QuorumCallCombo", false}, k{"QuorumCallAsyncPerNodeArg", false}, k{"MulticastPerNodeArg", false})
 	}
 	for _, kd := range kinds {
-		for _, st := range []string{"down", "silent", "window-full", "sender-busy"} {
+		for _, st := range []string{"down", "silent", "window-full", "sender-busy", "abandoned-stream"} {
 			for _, buf := range []uint{0, 1, 2} {
 				if buf == 2 && !thorough(tier) {
+					continue
+				}
+				if st == "abandoned-stream" && buf == 1 && !thorough(tier) {
 					continue
 				}
 				for _, cause := range []error{context.Canceled, context.DeadlineExceeded} {
@@ -175,6 +205,14 @@ func ctxInstances(tier string) []Instance {
 							continue
 						}
 						bound := 2
+						if st == "abandoned-stream" {
+							if pre || cause != context.Canceled {
+								continue
+							}
+							if !thorough(tier) {
+								bound = 1
+							}
+						}
 						p := ctxParams{kind: kd.kind, nsw: kd.nsw, state: st, buf: buf, cause: cause, pre: pre}
 						out = append(out, Instance{Name: p.name(), Bound: bound, Root: ctxScenario(p)})
 					}
@@ -187,7 +225,7 @@ func ctxInstances(tier string) []Instance {
 
 func init() {
 	register(&Check{ID: "C08",
-		Rule:        "9 call variants (12 thorough) x node-1 state {down, silent (handler never returns), window full (this call's write blocks), sender busy (an earlier message with a never-ending context is stuck in the write, this call queues behind it)} x send buffer {0,1(,2)} x context end {Canceled, DeadlineExceeded} x {already ended before the call, ended by a free-running thread placed by the explorer at every instant within the deviation bound: before queuing, while queued, while being written, while waiting}; oracle (strict, untimed): at quiescence after the context ended - no timer fired, no handler returned - the call has returned / its future or correctable is done, and a reported error matches the context's error under errors.Is; an outcome is (instance, returned, error reported)",
+		Rule:        "9 call variants (12 thorough) x node-1 state {down, silent (handler never returns), window full (this call's write blocks), sender busy (an earlier message with a never-ending context is stuck in the write, this call queues behind it), an earlier server-stream call abandoned by an adversary thread while the servers stream} x send buffer {0,1(,2)} x context end {Canceled, DeadlineExceeded} x {already ended before the call, ended by an adversary thread placed by the explorer at every instant within the deviation bound: before queuing, while queued, while being written, while waiting}; oracle (strict, untimed): at quiescence after the context ended - no timer fired, no handler returned - the call has returned / its future or correctable is done, and a reported error matches the context's error under errors.Is; an outcome is (instance, returned, error reported)",
 		Gen:         ctxInstances,
 		Assumptions: []string{"'promptly' is decided in its untimed form: completion by library-internal steps only, without any timer expiry or further message", "transport window 1 so that a non-reading server blocks the second unread write"},
 	})
